@@ -19,7 +19,14 @@ from .c14 import rejected_of
 from .common import log
 
 RUNS = {"quick": 760, "thorough": 8000}
-WINDOW_BYTES = {"quick": 1000, "thorough": 600}
+# windows per run: one at a random line, one that ends at the END of the output, one around each of the offsets
+# 2^12, 2^16, 2^17, 2^18, 2^20 that the output reaches (dimension audit); both lexers with full location data
+WINDOW_BYTES = {"quick": 500, "thorough": 500}
+# dimension audit: the last runs ask for more than 64 KB
+BIG_SIZES = {"quick": [128, 256], "thorough": [65, 100, 128, 200, 256, 300, 512, 1024, 1024, 2048]}
+# dimension audit: the REAL entry point, `penne fuzz tokens --kb N --out-dir D` (unseeded: every run is a new sample)
+BINARY_KB = {"quick": [1, 1, 1, 1, 1, 1, 2, 3, 4, 16, 64, 130],
+             "thorough": [1] * 30 + [2, 2, 3, 3, 4, 4, 5, 8, 16, 32, 63, 64, 65, 128, 256, 512, 1024]}
 
 RULE_TEXT = (
     "Model: TLC explores every (last emission, separator choice, next emission) of the Fuzzer automaton over a table of "
@@ -29,14 +36,18 @@ RULE_TEXT = (
     "valid UTF-8, at least kb*1024 bytes, and lexed by both real lexers with zero lexical errors; one line-aligned window "
     "per run and lexer is validated by TLC against PenneLex (delta: kinds, payloads, spans, line/col; alpha: kinds, payloads, "
     "lines) together with the claim that the rule finds no lexical error in the window. Non-trivial = distinct generator "
-    "outputs (by seed and size) with at least 100 tokens.")
+    "outputs (by seed and size) with at least 100 tokens. Dimension audit: sizes beyond 64 KB (quick 128, 256 KB; thorough up to 2 MB); "
+    "every run also through a window that ends at the END of the output and windows around the offsets 2^12, 2^16, 2^17, 2^18, 2^20, "
+    "both lexers with offsets; runs of the REAL binary `penne fuzz tokens --kb N --out-dir D` (12 quick / 47 thorough, unseeded), "
+    "whose file is analysed like a seeded run; `--kb 0` is observed only (zero-byte file, outside the quantifier).")
 
 ASSUMPTIONS = [
     "the output of the seeded entry point (hook H6, StdRng) has the same distribution as the public function with rand::rng(); only the source of randomness differs",
     "Fuzzer.tla is model A (transcribed from src/delta/fuzzer.rs): disagreement of the real output with the model's adjacency set is MODEL-DRIFT, only the rule (PenneLex: no lexical error; UTF-8; size) decides VIOLATION",
     "the spelling table holds representatives of every spelling class (first byte class x last byte class x literal form); random_identifier / random_uint / random_char are not enumerated value by value",
     "windows start and end at line boundaries, where the reference automaton is in its start state (no lexeme spans lines)",
-    "alpha windows are compared without offsets (alpha's offsets drift after CRLF line ends: a C14 finding, not a C19 matter)",
+    "alpha windows are compared with character offsets rebased to the window (the CRLF offset defect of the first generation is repaired)",
+    "`penne fuzz tokens --kb 0` writes a zero-byte file (both lexers: E101): outside the quantifier (sizes 1-64 KB), not judged",
 ]
 
 
@@ -63,17 +74,25 @@ def run(rep, tier, seed, selftest):
     chunks = 12
     summary_path = os.path.join(common.WORK, "C19-runs.ndjson")
     prefix = os.path.join(common.WORK, "C19-win")
-    common.pvh(["fuzz", runs, seed, summary_path, prefix, chunks, 1, WINDOW_BYTES[tier]], exe_name="pvh_lex", timeout=3000)
+    common.pvh(["fuzz", runs, seed, summary_path, prefix, chunks, 1, WINDOW_BYTES[tier], ",".join(map(str, BIG_SIZES[tier])),
+                1 if tier == "quick" else 4], exe_name="pvh_lex", timeout=3000)
     rows = common.read_ndjson(summary_path)
     if len(rows) != runs:
         raise common.ToolError("fuzz harness returned %d summaries for %d runs" % (len(rows), runs))
+    # the real entry point: the binary, as a user runs it
+    binary_rows, binary_trace, kb0 = run_binary(tier)
+    for k, row in enumerate(binary_rows):
+        row["seed"] = -(k + 1)             # unseeded: identified by its index
+        row["binary"] = True
+    rows += binary_rows
+    runs += len(binary_rows)
     nontrivial = set()
     total_bytes = 0
     ok_runs = 0
     sizes = set()
     observed_adj = set()
     for row in rows:
-        ident = "seed=%d kb=%d" % (row["seed"], row["kb"])
+        ident = ("binary run %d kb=%d" % (-row["seed"], row["kb"])) if row.get("binary") else "seed=%d kb=%d" % (row["seed"], row["kb"])
         sizes.add(row["kb"])
         total_bytes += row["len"]
         bad = False
@@ -110,6 +129,8 @@ def run(rep, tier, seed, selftest):
         rep.drift += len(unknown_adj) - 5
     # ---- 3. windows of the token streams, validated by TLC ------------------------------------------
     files = [f for f in ("%s.%d.ndjson" % (prefix, c) for c in range(chunks)) if os.path.exists(f) and os.path.getsize(f) > 0]
+    if binary_trace and os.path.getsize(binary_trace) > 0:
+        files.append(binary_trace)
     results = common.tlc_traces("Trace_Lex", "Trace_Lex_validate.cfg", files, timeout=3000, parallel=12)
     windows = accepted = items = 0
     sample = None
@@ -177,6 +198,8 @@ def run(rep, tier, seed, selftest):
         "model_invariants_hold": r.ok,
         "violated_invariant": r.violated,
         "generator_runs": runs,
+        "runs_through_the_real_binary": len(binary_rows),
+        "kb_0_observation_unconstrained": kb0,
         "generator_runs_clean": ok_runs,
         "sizes_kb": [min(sizes), max(sizes)],
         "distinct_sizes": len(sizes),
@@ -191,6 +214,51 @@ def run(rep, tier, seed, selftest):
         "selftests": selftests,
     }
     return rep.finish("model_checking", coverage, ASSUMPTIONS)
+
+
+def run_binary(tier):
+    """`penne fuzz tokens --kb N --out-dir D` (src/main.rs do_fuzzing): the file it writes is analysed by pvh_lex
+    fuzz-file exactly like the output of a seeded run.  Returns (summaries, trace file, observation for --kb 0)."""
+    import shutil
+    import subprocess
+    from . import pipeline_common
+    exe = pipeline_common.build_penne()
+    base = os.path.join(common.WORK, "C19-bin")
+    shutil.rmtree(base, ignore_errors=True)
+    os.makedirs(base)
+    rows = []
+    trace = os.path.join(common.WORK, "C19-win.bin.ndjson")
+    with open(trace, "w") as tf:
+        for k, kb in enumerate(BINARY_KB[tier]):
+            d = os.path.join(base, "r%d" % k)
+            os.makedirs(d)
+            try:
+                p = subprocess.run([exe, "fuzz", "tokens", "--kb", str(kb), "--out-dir", d], stdout=subprocess.PIPE,
+                                   stderr=subprocess.PIPE, timeout=300, cwd=d)
+                status = p.returncode
+            except subprocess.TimeoutExpired:
+                status = "timeout"
+            out = os.path.join(d, "fuzzed_tokens.pn")
+            summ = os.path.join(d, "summary.json")
+            tr = os.path.join(d, "trace.ndjson")
+            common.pvh(["fuzz-file", out, kb, summ, tr, WINDOW_BYTES[tier]], exe_name="pvh_lex", timeout=600)
+            row = json.load(open(summ))
+            if status != 0:
+                row["status"] = "penne fuzz ended with status %s" % status
+            rows.append(row)
+            tf.write(open(tr).read())
+    # --kb 0: outside the quantifier of the property (sizes 1..64 KB) and not documented: observed, not judged
+    d = os.path.join(base, "kb0")
+    os.makedirs(d)
+    try:
+        p = subprocess.run([exe, "fuzz", "tokens", "--kb", "0", "--out-dir", d], stdout=subprocess.PIPE, stderr=subprocess.PIPE,
+                           timeout=60, cwd=d)
+        out = os.path.join(d, "fuzzed_tokens.pn")
+        kb0 = {"exit": p.returncode, "bytes": os.path.getsize(out) if os.path.exists(out) else None}
+    except subprocess.TimeoutExpired:
+        kb0 = {"exit": "timeout"}
+    shutil.rmtree(base, ignore_errors=True)
+    return rows, trace, kb0
 
 
 KEYWORD_KINDS = {"Fn", "Var", "Const", "If", "Goto", "Loop", "Return", "Else", "Cast", "As", "Import", "Pub", "Extern", "Struct",
@@ -234,7 +302,10 @@ def replay(path):
     print("key :", d.get("key"))
     det = d.get("detail", {})
     run_ = det.get("run")
-    if run_:
+    if run_ and run_.get("binary"):
+        print("a run of the real binary (`penne fuzz tokens --kb %d --out-dir D`, unseeded: cannot be repeated); recorded:" % run_["kb"])
+        print(json.dumps(run_, indent=1)[:4000])
+    elif run_:
         print("re-running the generator with seed %d, %d KB ..." % (run_["seed"], run_["kb"]))
         p = common.pvh(["fuzz-one", run_["seed"], run_["kb"]], exe_name="pvh_lex")
         print(p.stdout[-4000:])
